@@ -255,6 +255,8 @@ pub struct ConnState {
     pub owed_acks: VecDeque<(u8, u16, Option<u8>)>,
     /// owed acks inherited from earlier connections (optional re-sends)
     pub carry_acks: VecDeque<(u8, u16, Option<u8>)>,
+    /// a request was refused locally since the last completed client packet (C19)
+    pub refused_since_last_complete: bool,
     /// expected deliveries (bmsg index) not yet returned by poll/recv/drive
     pub expect_deliver: VecDeque<usize>,
     /// deliveries the model leaves open (stale client-side QoS 2 state)
@@ -324,6 +326,7 @@ impl ConnState {
             must_replay: BTreeSet::new(),
             owed_acks: VecDeque::new(),
             carry_acks: VecDeque::new(),
+            refused_since_last_complete: false,
             expect_deliver: VecDeque::new(),
             optional_deliver: Vec::new(),
             last_complete_t: None,
